@@ -79,6 +79,10 @@ func c10Eval(c core.Case) (res core.Result) {
 		res.Tags = append(res.Tags, "skipped_upstream_panic")
 		return
 	}
+	// the same call again: the outcome of Parse does not depend on having been asked before
+	if e2, err2, pi2 := parse(in, c.DF); pi2 == nil && ((e2 == nil) != (e == nil) || (err2 == nil) != (err == nil)) {
+		add("allornothing", "second-call-differs", fmt.Sprintf("second Parse: expr-nil=%v err=%v", e2 == nil, err2), fmt.Sprintf("as the first: expr-nil=%v err=%v", e == nil, err))
+	}
 	if (e == nil) == (err == nil) {
 		add("allornothing", fmt.Sprintf("expr-nil=%v err-nil=%v", e == nil, err == nil),
 			fmt.Sprintf("Parse returned expr=%s err=%v", gostr(e), err), "exactly one of (expression, error)")
